@@ -7,6 +7,7 @@ package main
 // depend on cache history (and on restarts).
 
 import (
+	"go/types"
 	"strings"
 
 	"golang.org/x/tools/go/ssa"
@@ -96,11 +97,25 @@ func d6(w *World, r *Report, x *ExecCtx, fns []*ssa.Function) {
 							marked[w.Canon(a)] = true
 						}
 					}
+					// a helper that hands its argument to an overlay setter on every success path
+					// (`saveX(exec, x)`: `if exec { L.SetFinality(x) } else { L.Set(x) }`)
+					if ci, ok := e.In.(ssa.CallInstruction); ok {
+						if cal := ci.Common().StaticCallee(); cal != nil && len(cal.Params) == len(ci.Common().Args) {
+							for j, a := range ci.Common().Args {
+								if _, isPtr := a.Type().Underlying().(*types.Pointer); !isPtr {
+									continue
+								}
+								if res := w.mustSinkParam(cal, j, overlayMarkSpec(w), 0); res.ok && len(res.funcParams) == 0 {
+									marked[w.Canon(a)] = true
+								}
+							}
+						}
+					}
 				}
 			}
 			for o := range dirty {
 				for m := range marked {
-					if m == o || m == o+".Key()" || strings.HasPrefix(m, o+".") {
+					if m == o || m == o+".Key()" || strings.HasPrefix(m, o+".") || phiAlternative(o, m) {
 						delete(dirty, o)
 					}
 				}
@@ -120,6 +135,45 @@ func d6(w *World, r *Report, x *ExecCtx, fns []*ssa.Function) {
 		}
 	}
 	r.Extra["d6_objects"] = n
+}
+
+// phiAlternative: o is "phi(a|b|…)" and m is one of its alternatives (a mark made
+// in a helper is named by the value the path carries, the mutation by the merge).
+func phiAlternative(o, m string) bool {
+	if !strings.HasPrefix(o, "phi(") || !strings.HasSuffix(o, ")") {
+		return false
+	}
+	body := o[4 : len(o)-1]
+	depth, start := 0, 0
+	for i := 0; i <= len(body); i++ {
+		if i == len(body) || (body[i] == '|' && depth == 0) {
+			if body[start:i] == m {
+				return true
+			}
+			start = i + 1
+			continue
+		}
+		switch body[i] {
+		case '(', '[':
+			depth++
+		case ')', ']':
+			depth--
+		}
+	}
+	return false
+}
+
+var overlayMarkSpecMemo *sinkSpec
+
+// overlayMarkSpec: the sink is an overlay mutator of a live ledger taking the object.
+func overlayMarkSpec(w *World) *sinkSpec {
+	if overlayMarkSpecMemo == nil {
+		overlayMarkSpecMemo = &sinkSpec{isSink: func(c ssa.CallInstruction, arg int) bool {
+			e := w.effectOf(c)
+			return e != nil && e.Kind == "overlay" && arg == len(c.Common().Args)-1
+		}}
+	}
+	return overlayMarkSpecMemo
 }
 
 func itoa(i int) string {
